@@ -50,6 +50,15 @@ theorem partition_refuses_classical_bits (o : CutOracle) (c : Circuit) (nb : Nat
   have : c.cregs.isEmpty = false := by cases hc : c.cregs with | nil => exact absurd hc h | cons a b => rfl
   simp [IsValueError, partitionProblem, hl, partitionProblem.go, partitionProblem.go2, this]
 
+/-- `cut_gates` / `find_cuts`: a circuit with any classical register or any classical bit (registered or loose) is refused, one
+without is accepted -/
+theorem cut_gates_refuses_classical (nregs nbits : Nat) (h : nregs ≠ 0 ∨ nbits ≠ 0) :
+    IsValueError (Validation.checkNoClassical nregs nbits) := by
+  simp [IsValueError, Validation.checkNoClassical, h]
+
+theorem cut_gates_accepts_quantum_only : Validation.checkNoClassical 0 0 = .ok () := by
+  simp [Validation.checkNoClassical]
+
 /-- a gate on more than two qubits that would have to be cut, at any position of the circuit -/
 theorem cut_refuses_big_gate (o : CutOracle) (labels : List Label) : ∀ (pre : List Instr) (g : Instr) (post : List Instr) (nb : Nat),
     spansCut labels g = true → g.qubits.length > 2 → (∀ i ∈ pre, spansCut labels i = false) →
